@@ -132,7 +132,7 @@ def run_apply_case(args):
     base = os.path.join(workroot, name)
     shutil.rmtree(base, ignore_errors=True)
     os.makedirs(base)
-    res = {"name": name, "case": case, "problems": [], "faults": 0, "calls": {}, "apply_failed": 0, "apply_ok": 0, "kept": 0, "lost": 0, "skipped": None}
+    res = {"name": name, "case": case, "problems": [], "faults": 0, "calls": {}, "apply_failed": 0, "apply_ok": 0, "kept": 0, "lost": 0, "skipped": None, "corr": []}
     parts = [p.strip() for p in case.split(";")]
     hd, ops = parts[0], parts[1:]
     idx = [i for i, o in enumerate(ops) if o.startswith("apply ")]
@@ -174,7 +174,27 @@ def run_apply_case(args):
     for k, (sysc, ordinal, what) in enumerate(calls):
         d = os.path.join(base, "k%d" % k)
         shutil.copytree(root0, d, symlinks=True)
-        a = execcase(hxbin, d, step, inject=(sysc, ordinal))
+        ftr = os.path.join(base, "k%d.trace" % k)
+        a = execcase(hxbin, d, step, strace=ftr, inject=(sysc, ordinal))
+        # the tie to the crash theorems: a call that returns an error is the LAST mutating call of the operation, so
+        # the directory left behind is the crash image "process died before call k" that C13_crash_* speak about
+        try:
+            after, seen = [], False
+            for line in open(ftr, errors="replace"):
+                if "(INJECTED)" in line:
+                    seen = True
+                    continue
+                m = re.match(r"\d+\s+(\w+)\((.*)$", line)
+                if not m or not seen:
+                    continue
+                if m.group(1) == "write" and '"@@OP 1' in m.group(2):
+                    break
+                if d in m.group(2) and (m.group(1) in ("write", "fdatasync", "fsync", "link", "linkat", "rename", "renameat", "renameat2", "unlink", "unlinkat")
+                                        or (m.group(1) == "openat" and ("O_CREAT" in m.group(2) or "O_WRONLY" in m.group(2) or "O_RDWR" in m.group(2)))):
+                    after.append(m.group(1))
+            os.unlink(ftr)
+        except OSError:
+            after = []
         res["faults"] += 1
         key = what.split(" ")[0]
         res["calls"][key] = res["calls"].get(key, 0) + 1
@@ -191,6 +211,10 @@ def run_apply_case(args):
                 res["apply_ok"] += 1
             else:
                 res["apply_failed"] += 1
+                if after:
+                    # (a read-side error the code may swallow - `tmp.exists()` - lets the operation go on and succeed; that is
+                    # not this case: the apply reported the error)
+                    res["corr"].append({"fault_call_index": k, "what": "mutating calls after the failed call %s inside an apply that returned the error: %s (the crash theorems then do not speak about this directory)" % (what, after[:6])})
         r, st = reopen_state(d)
         if r != "ok":
             res["problems"].append(dict(rp, kind="error", what="after the faulted apply an undisturbed reopen fails: %s" % r))
@@ -223,7 +247,9 @@ def run_apply_stage(chk, cases, hxbin, pool_map):
         for k, v in r["calls"].items():
             cov["calls_faulted"][k] = cov["calls_faulted"].get(k, 0) + v
     bad = [{"stage": "apply-fault", "tag": r["name"], "case": r["case"], "problems": r["problems"][:6]} for r in results if r["problems"]]
-    return cov, bad
+    corr = [{"stage": "apply-fault", "tag": r["name"], "kind": "apply-fault", "case": r["case"], "what": r["corr"][0]["what"]} for r in results if r["corr"] and not r["problems"]]
+    cov["mutating_calls_after_a_failed_call"] = sum(len(r["corr"]) for r in results)
+    return cov, bad, corr
 
 
 def run_stage(chk, cases, hxbin, pool_map):
